@@ -31,6 +31,14 @@ class PyModule:
         self.funcs = {}
         self.classes = {}
         self.consts = {}
+        self.imports = {}     # local name -> dotted origin
+        for n in self.tree.body:
+            if isinstance(n, ast.ImportFrom) and n.module:
+                for a in n.names:
+                    self.imports[a.asname or a.name] = n.module + "." + a.name
+            elif isinstance(n, ast.Import):
+                for a in n.names:
+                    self.imports[a.asname or a.name.split(".")[0]] = a.name
         for n in self.tree.body:
             if isinstance(n, ast.FunctionDef):
                 self.funcs[n.name] = n
@@ -223,6 +231,13 @@ class PyExec:
         self.facts = []
         self.hooks = hooks or {}
 
+    def sub_exec(self, rel):
+        if not hasattr(self, "_subs"):
+            self._subs = {}
+        if rel not in self._subs:
+            self._subs[rel] = PyExec(load(rel), self.sink, self.prefix, globals_=self.globals, abstract=self.abstract, hooks=self.hooks)
+        return self._subs[rel]
+
     # ------------------------------------------------------------ obligations
     def oblige(self, kind, st, goal, node=None, label=None):
         if self.sink is None:
@@ -261,6 +276,10 @@ class PyExec:
                 if di < 0:
                     raise CheckerError("missing argument %s of %s" % (p, fnode.name))
                 local[p] = self.const_expr(a.defaults[di])
+        if a.vararg is not None:
+            local[a.vararg.arg] = tuple(vals[len(params):])
+        elif len(vals) > len(params):
+            raise CheckerError("too many arguments for %s" % fnode.name)
         for p, d in zip(a.kwonlyargs, a.kw_defaults):
             local[p.arg] = kwargs.get(p.arg, self.const_expr(d) if d is not None else None)
         local["__cls__"] = cls
@@ -673,6 +692,15 @@ class PyExec:
                 return {"True": True, "False": False, "None": None}[n.id]
             if n.id in ("np", "numpy"):
                 return ModuleRef("numpy")
+            if n.id in self.mod.imports:
+                org = self.mod.imports[n.id]
+                if org.startswith("phonopy."):
+                    modname, attr = org.rsplit(".", 1)
+                    rel = modname.replace(".", "/") + ".py"
+                    if os.path.exists(os.path.join(REPO, rel)):
+                        sub = self.sub_exec(rel)
+                        return sub.eval(st, ast.Name(id=attr, ctx=ast.Load()), {})
+                return ModuleRef(org)
             if n.id in ("RuntimeError", "ValueError", "TypeError", "float", "int"):
                 return Builtin(n.id)
             raise CheckerError("unbound name %s (line %s)" % (n.id, getattr(n, "lineno", "?")))
@@ -709,7 +737,7 @@ class PyExec:
             res = []
             for op, r in zip(n.ops, n.comparators):
                 right = self.eval(st, r, env)
-                res.append(self.compare(op, left, right))
+                res.append(self.compare(op, left, right, st))
                 left = right
             return simp(z3.And(*res)) if len(res) > 1 else res[0]
         if isinstance(n, ast.IfExp):
@@ -748,7 +776,9 @@ class PyExec:
             return "<fstring>"
         raise CheckerError("unsupported python expression %s (line %s)" % (type(n).__name__, getattr(n, "lineno", "?")))
 
-    def compare(self, op, a, b):
+    def compare(self, op, a, b, st=None):
+        if isinstance(op, (ast.In, ast.NotIn)) and isinstance(b, Ref) and st is not None and isinstance(st.heap[b.id], PList):
+            b = list(st.heap[b.id].items)
         if isinstance(op, (ast.Is, ast.IsNot)):
             r = (a is b) or (a is None and b is None)
             if is_sym(a) or is_sym(b):
@@ -1155,6 +1185,8 @@ class PyExec:
     def modcall(self, st, name, args, kwargs, node):
         short = name.split(".")[-1]
         if name.startswith("numpy") or name.startswith("math") or name.startswith("np"):
+            if short == "sqrt" and not isinstance(args[0], Ref):
+                return self.mathf(st, "sqrt", args[0], node)
             if short in NP_MATH:
                 fn = NP_MATH[short]
                 a = args[0]
